@@ -85,6 +85,17 @@ def ListN(es):
     return N("list", a=[N("item", a=[e]) for e in es])
 
 
+def SetN(es):
+    return N("set", a=[N("item", a=[e]) for e in es])
+
+
+def MapN(pairs):
+    return N("map", a=[[k, v] for k, v in pairs])
+
+
+WIDE = [-12, -10, -2, -1, 0, 1, 2, 3, 9, 10, 11, 100]
+
+
 def Param(x, d=None, rest=False):
     return {"name": x, "code": CODE[x], "def": d or NONE, "rest": rest}
 
@@ -188,9 +199,18 @@ class Gen:
         if k == "for":
             var = r.choice(INTS)
             n = r.randint(0, 3)
-            coll = ListN([I(r.randint(0, 4)) for _ in range(n)])
+            c = r.random()
+            what = "values"
+            if c < 0.6:
+                coll = ListN([I(r.randint(0, 4)) for _ in range(n)])
+            elif c < 0.8:       # sets and maps: ints whose numeric order differs from the order of their texts
+                coll = SetN([I(x) for x in r.sample(WIDE, r.randint(1, 4))])
+            else:
+                ks = r.sample(WIDE, r.randint(1, 4))
+                coll = MapN([(I(x), I(r.randint(0, 4))) for x in ks])
+                what = r.choice(["keys", "values"])
             body = Blk(self.stmts(d - 1, dict(ctx, loop=True, ints=set(ctx["ints"]) | {var}), r.randint(1, 3)))
-            return For([var], "values", coll, body)
+            return For([var], what, coll, body)
         if k == "while":
             var = r.choice(["n", "k"])
             lim = r.randint(0, 3)
@@ -203,7 +223,17 @@ class Gen:
             catches = []
             for _ in range(r.choice([0, 1, 1, 2])):
                 c = r.random()
-                key = N("all") if c < 0.4 else (S(r.choice("ab")) if c < 0.7 else (I(r.randint(0, 2)) if c < 0.85 else S("ERROR")))
+                known = sorted(ctx["ints"])
+                if c < 0.35:
+                    key = N("all")
+                elif c < 0.6:
+                    key = S(r.choice("ab"))
+                elif c < 0.72:
+                    key = I(r.randint(0, 2))
+                elif c < 0.85 and known:     # a clause value that changes between two runs of the same block
+                    key = Var(r.choice(known))
+                else:
+                    key = S("ERROR")
                 catches.append([key, self.simple(d - 1, ctx)])
             fins = self.stmts(d - 1, ctx, r.randint(1, 2)) if r.random() < 0.5 else []
             return Blk(body, catches, fins)
